@@ -478,9 +478,9 @@ def guards_of(root, target):
     locs = _LOCALS_CACHE[key][1]
     res = []
     for g in out:
-        if g[0] == "if" and g[1]["k"] != "LetE":
+        if g[0] in ("if", "exit") and g[1]["k"] != "LetE":
             c = subst_bool_locals(g[1], locs)
-            res.append(("if", c, g[2]) if c is not g[1] else g)
+            res.append((g[0], c, g[2]) if c is not g[1] else g)
         else:
             res.append(g)
     return res
@@ -496,6 +496,12 @@ def _guards_of(root, target):
     out = []
     for anc, key in chain:
         k = anc["k"]
+        if k == "Block" and (key.startswith("stmts[") or key == "expr"):
+            # guard clauses: an earlier statement of the block that leaves (continue / break / return) under a condition puts
+            # everything after it under the opposite condition - `if !c { continue }; rest` reads like `if c { rest }`
+            upto = int(key[6:key.index("]")]) if key.startswith("stmts[") else len(anc["stmts"])
+            for st in anc["stmts"][:upto]:
+                out.extend(_exit_guards(st))
         if k == "If":
             if key == "t":
                 out.append(("if", anc["c"], True))
@@ -519,6 +525,8 @@ def _guards_of(root, target):
 
 def guard_text(g):
     """one-line description of a guards_of entry"""
+    if g[0] in ("exit", "exitmatch"):
+        return guard_text((("if",) if g[0] == "exit" else ("match",)) + tuple(g[1:]))
     if g[0] == "if":
         return "%s(%s)" % ("" if g[2] else "not ", render(g[1]))
     if g[0] == "match":
@@ -725,6 +733,64 @@ def conditions(root):
             for a in x["arms"]:
                 if a.get("guard") is not None:
                     out.append((a["guard"], a["body"], x))
+    return out
+
+
+def _exit_guards(st):
+    """guards that hold after statement `st` because its other outcome leaves the block: [('if', cond, polarity) | ('match', scrut, pat, src)]"""
+    g = []
+    x = st
+    if x["k"] == "Let" and x.get("init") is not None:
+        init = x["init"]
+        while init["k"] == "Block" and not init["stmts"] and "expr" in init:
+            init = init["expr"]
+        if x.get("els") is not None and diverges(x["els"]):
+            g.append(("exit", {"k": "LetE", "sp": x.get("sp", "?"), "pat": x["pat"], "init": x["init"]}, True))
+        elif init["k"] == "Match" and init.get("src") == "Normal":
+            live = [a for a in init["arms"] if not diverges(a["body"])]
+            if len(live) == 1 and len(init["arms"]) >= 2:
+                g.append(("exitmatch", init["scrut"], live[0]["pat"], init.get("src")))
+        elif init["k"] == "If" and "e" in init:
+            if diverges(init["e"]) and not diverges(init["t"]):
+                g.append(("exit", init["c"], True))
+            elif diverges(init["t"]) and not diverges(init["e"]):
+                g.append(("exit", init["c"], False))
+        return g
+    while x["k"] == "Block" and not x["stmts"] and "expr" in x:
+        x = x["expr"]
+    if x["k"] == "If":
+        t_div = diverges(x["t"])
+        e_div = "e" in x and diverges(x["e"])
+        if t_div and not e_div:
+            g.append(("exit", x["c"], False))
+        elif e_div and not t_div:
+            g.append(("exit", x["c"], True))
+    elif x["k"] == "Match" and x.get("src") == "Normal":
+        live = [a for a in x["arms"] if not diverges(a["body"])]
+        if len(live) == 1 and len(x["arms"]) >= 2:
+            g.append(("exitmatch", x["scrut"], live[0]["pat"], x.get("src")))
+    return g
+
+
+def with_exits(gs, after_loop=False):
+    """guards_of output with guard clauses read as ordinary guards (`exit` -> `if`, `exitmatch` -> `match`); with
+    after_loop only the guard clauses inside the innermost enclosing loop count (a clause before the loop holds for every
+    round alike)"""
+    out = []
+    start = 0
+    if after_loop:
+        for i, g in enumerate(gs or []):
+            if g[0] == "loop":
+                start = i
+    for i, g in enumerate(gs or []):
+        if g[0] == "exit":
+            if i >= start:
+                out.append(("if",) + tuple(g[1:]))
+        elif g[0] == "exitmatch":
+            if i >= start:
+                out.append(("match",) + tuple(g[1:]))
+        else:
+            out.append(g)
     return out
 
 
